@@ -629,6 +629,15 @@ class C10(common.Prop):
         out.append({'kind': 'layered', 'cls': 'layered-corpus', 'levels': 2,
                     'layered': '{[#X][#Y]}.{#X=[#a][#b][!],#Y=[!][#b][#c]}.{#a=CC[$],#b=[$]CO[$],#c=[$]CN}',
                     'flat': '{[#a][#b][#c]}.{#a=CC[$],#b=[$]CO[$],#c=[$]CN}'})
+        # two DISTINCT shared atoms that are directly bonded (both atoms of the middle fragment are shared): the merge
+        # classes are the components of the `!` pairs, not of the bonded shared atoms (seed C10-5)
+        out.append({'shared': {'s': '{[#A][#B][#C]}.{#A=OC[!a],#B=[!a]CC[!b],#C=[!b]CO}',
+                               'phi': [['A', 0, 0], ['A', 1, 1], ['B', 0, 1], ['B', 1, 2], ['C', 0, 2], ['C', 1, 3]],
+                               'owners': [[0, [0]], [1, [0, 1]], [2, [1, 2]], [3, [2]]], 'frag_heavy': 6, 'npairs': 2},
+                    'disjoint': {'s': '{[#A][#B][#C]}.{#A=O[$a],#B=[$a]CC[$b],#C=[$b]O}',
+                                 'phi': [['A', 0, 0], ['B', 0, 1], ['B', 1, 2], ['C', 0, 3]],
+                                 'owners': [[0, [0]], [1, [1]], [2, [1]], [3, [2]]], 'frag_heavy': 4, 'npairs': 0},
+                    'mode': 'star', 'cls': 'bonded-shared-atoms'})
         out += [gen_layered(rng) for _ in range(3)]
         return out + [gen_case(rng, force=m) for m in ('star', 'chain', 'clique', 'star', 'chain')]
 
